@@ -5,7 +5,8 @@
 # the demo FAILS with it and PASSES without it.  On success the material is copied to /verif/seeded/<name>/.
 set -u
 ID=$1; NAME=${2:-$ID}
-OUT=/tmp/seed-$ID-out
+PFX=${SEEDPFX:-seed}
+OUT=/tmp/$PFX-$ID-out
 WT=/tmp/confirm-$ID
 export CARGO_NET_OFFLINE=true
 rm -rf $WT; git -C /repo worktree prune
@@ -20,7 +21,7 @@ T2=$(cargo test --offline --features backend-mmap,backend-bitmap,backend-atomic 
 echo "all-features tests with patch: $T2"
 # demo against this worktree
 rm -rf /tmp/confirm-$ID-demo; cp -r $OUT/demo /tmp/confirm-$ID-demo
-sed -i "s|/tmp/seed-$ID\b|$WT|g" /tmp/confirm-$ID-demo/Cargo.toml
+sed -i "s|/tmp/$PFX-$ID\b|$WT|g" /tmp/confirm-$ID-demo/Cargo.toml
 cp /repo/Cargo.lock /tmp/confirm-$ID-demo/Cargo.lock
 ( cd /tmp/confirm-$ID-demo && timeout 600 cargo run --offline -q >/tmp/confirm-$ID-with.log 2>&1 ); RC1=$?
 git checkout -q -- . 
